@@ -198,6 +198,28 @@ def run(ck, P):
     ck.ob("C03.3-PRODUCERS", rv.site("owner"), okm, "push_evt receives the module recorded in the polled source (p->mod): %s" % okm)
 
     # ------------------------------------------------------------------ 4. one-shot
+    # a ready descriptor is handed to its owner: the poll back end withholds an event only for EPOLLERR — end of stream (EPOLLHUP, which
+    # arrives together with EPOLLIN on a pipe or socket whose peer closed) is something the owner must see, and a withheld event makes
+    # recv_events give up on the rest of the batch
+    pr = P.fn("poll_recv", required=False)
+    if pr is not None:
+        ck.analysed(pr)
+        import re as _re
+        ERR_ = P.enums.get("EPOLLERR", 8)
+        wide = []
+        for g_ in rules.bailouts(pr):
+            if g_.retval != 0:
+                continue
+            for (a_, p_) in g_.cont_atoms:
+                m_ = _re.search(r"events & (\d+)\)$", a_)
+                if m_ and (int(m_.group(1)) & ~ERR_):
+                    wide.append((a_, int(m_.group(1)), g_.line))
+        ck.rule("C03.7-READY-DELIVERED", "R-GUARD: poll_recv withholds a ready event only when EPOLLERR is set", floor=1)
+        ck.ob("C03.7-READY-DELIVERED", pr.site("only EPOLLERR withholds an event"), not wide,
+              "poll_recv returns NULL for EPOLLERR only" if not wide else
+              "poll_recv returns NULL when %s (mask %#x, line %d): a readable descriptor at end of stream (EPOLLIN|EPOLLHUP) is never handed to its owner, "
+              "and recv_events turns the NULL into EAGAIN and skips the remaining events of the batch" % wide[0])
+
     ck.rule("C03.4-ONESHOT", "R-PAIR: M_SRC_ONESHOT implies EPOLLONESHOT at registration; a delivered one-shot source is removed from its "
             "registry in recv_events (set for sources, map for subscriptions); task and threshold sources are forced one-shot", floor=4)
     ck.need("M_SRC_ONESHOT" in E, "M_SRC_ONESHOT vanished")
